@@ -39,7 +39,7 @@ q.patch
 "; f_mode := 420 |});
                             ([b "f"], {| f_data := b "a
 "; f_mode := 420 |})];
-               fs_dirs := [[b ".pc"]]; fs_log := [] |} in
+               fs_dirs := [[b ".pc"]]; fs_log := []; fs_fault := None; fs_fired := false |} in
   let cfg := {| c_fuzz := 0; c_backup := OnFail; c_backup_count := BLast 100; c_dry_run := false; c_default_mode := 420; c_preload := false |} in
   cmd_push cfg [] GAll fs = (fs, RErr EMismatch).
 Proof. vm_compute. reflexivity. Qed.
